@@ -228,3 +228,44 @@ func BadF5Ratio(total int64, micros int64) int64 {
 }
 
 func (c *f5cfg) GoodF5Slot(seq int) int { return seq % c.size }
+
+// ---- F6 ---------------------------------------------------------------------------------------------------------------
+
+type f6pkt struct {
+	buf     *[1460]byte
+	payload []byte
+}
+
+var f6pool [1460]byte
+
+// GoodF6Build: the two tests partition the cases (non-nil / nil), so payload is always assigned before PutUint16.
+func GoodF6Build(p []byte, rtx bool) *f6pkt {
+	k := &f6pkt{buf: &f6pool}
+	if p != nil {
+		n := copy(k.buf[2:], p)
+		k.payload = k.buf[:n+2]
+	}
+	if rtx {
+		if p == nil {
+			k.payload = k.buf[:2]
+		}
+		binary.BigEndian.PutUint16(k.payload, 7)
+	}
+	return k
+}
+
+// BadF6Build: a non-nil empty p satisfies neither test.
+func BadF6Build(p []byte, rtx bool) *f6pkt {
+	k := &f6pkt{buf: &f6pool}
+	if len(p) > 0 {
+		n := copy(k.buf[2:], p)
+		k.payload = k.buf[:n+2]
+	}
+	if rtx {
+		if p == nil {
+			k.payload = k.buf[:2]
+		}
+		binary.BigEndian.PutUint16(k.payload, 7)
+	}
+	return k
+}
